@@ -687,6 +687,28 @@ func runClient(cfg config) {
 		rtp:  func(p *rtp.Packet) error { return c.WritePacketRTP(m, p) },
 		rtcp: func(p rtcp.Packet) error { return c.WritePacketRTCP(m, p) }}, 0)
 	time.Sleep(200 * time.Millisecond)
+	if !back {
+		// the same limit holds while the client has no write queue: after PAUSE (pre-record) an
+		// oversized write must still be refused (it may not be silently accepted and dropped)
+		r := run.Rand("client-paused/"+cfg.name(), 0)
+		if _, err := c.Pause(); err == nil {
+			for _, over := range []int{1, 4, 28, 600, 2000} {
+				for _, sh := range []shape{rtpShapes[0], rtpShapes[7]} {
+					pk := buildRTP(sh, cfg.Max+over, newID(), uint16(over), pts[0], r)
+					if pk == nil {
+						continue
+					}
+					run.Count("client-paused-oversized-writes", 1)
+					if werr := c.WritePacketRTP(m, pk); werr == nil {
+						sc.violation("client/"+cfg.Proto+"/rtp/oversized-write-accepted-while-paused",
+							fmt.Sprintf("client paused (pre-record): WritePacketRTP of a %d-byte packet (maximum %d) returned nil", cfg.Max+over, cfg.Max), map[string]any{"size": cfg.Max + over, "shape": sh.Name})
+					}
+				}
+			}
+		} else {
+			run.Count("client-pause-failed", 1)
+		}
+	}
 	sc.finish("client")
 }
 
